@@ -279,6 +279,20 @@ def pureOp (w : List String) : Option String :=
   | ["repr", a] => do
       let a ← decPauli a
       pure (match reprPauli a with | some cs => "ok " ++ String.ofList (cs.map fun c => if c == ' ' then '.' else c) | none => "err UnboundLocalError")
+  | ["T.ipow", a, b] => do let a ← decStr a; let b ← decStr b; pure (toString (T.ipow a b))
+  | ["T.acq", a, b] => do let a ← decStr a; let b ← decStr b; pure (toString (T.acq a b))
+  | ["T.p0", a] => do let a ← decStr a; pure (toString (T.p0 a))
+  | ["T.acqmat", a] => do let a ← decStrs a; pure (";".intercalate ((T.acqMat a).map encInts))
+  | ["T.ipowproduct", a, b] => do let a ← decStrs a; let b ← decStrs b; pure (encInts (T.ipowProduct a b))
+  | ["T.combine", n, c, rows] => do
+      let n ← n.toNat?; let c ← decBits c; let rows ← decRows rows
+      pure (encPauli (T.combine n c rows))
+  | ["T.transform", m, rows] => do let m ← decRows m; let rows ← decRows rows; pure (encRows (rows.map (T.transform m)))
+  | ["T.diag1", g, i0] => do let g ← decStr g; let i0 ← i0.toNat?; pure (encStrs (T.diagonalize1 g i0))
+  | ["T.diag2", g1, g2, i0] => do
+      let g1 ← decStr g1; let g2 ← decStr g2; let i0 ← i0.toNat?
+      let (gs, a, b) := T.diagonalize2 g1 g2 i0
+      pure (encStrs gs ++ " " ++ encStr a ++ " " ++ encStr b)
   | ["T.acqgrid", a, b] => do let a ← decStr a; let b ← decStr b; pure (toString (T.acqGrid a b))
   | ["T.rotate", g, rows] => do let g ← decPauli g; let rows ← decRows rows; pure (encRows (rows.map (T.cliffordRotate g)))
   | ["T.rotsignless", g, rows] => do let g ← decStr g; let rows ← decStrs rows; pure (encStrs (rows.map (T.rotateSignless g)))
